@@ -106,6 +106,24 @@ def expand_one(items, rng):
     repl = [(x[0], x[1], scale_sub(x[2], n)) for x in it[1]]
     return items[:i] + repl + items[i + 1:]
 
+# subscripts at and beyond the two edges of the range of `double` (audit clauses 2/5): DBL_MAX = 1.7976931348623157e308, the
+# midpoint to 2^1024 is 1.79769313486231580793…e308; the smallest subnormal is 4.94e-324, everything <= 2^-1075 = 2.47e-324 is
+# converted to 0.0.  (Subnormal results are avoided: their rounding error is not relative, the model computes exactly.)
+RANGE_INPUTS = [
+    'H' + '9' * 400,                                   # far above DBL_MAX
+    'H1' + '0' * 309,                                  # 1e309: the first power of ten above DBL_MAX
+    'H2O' + '9' * 310,                                 # one finite and one overflowing count
+    '(H2O)' + '9' * 400,                               # the subscript of a group
+    'C(H2O' + '1' + '0' * 320 + ')3',                  # inside a group
+    'H17976931348623159' + '0' * 292,                  # 1.7976931348623159e308 > midpoint: +inf
+    'H1' + '0' * 308,                                  # 1e308: finite (and so is 1e308 times the atomic weight of H; the largest finite
+                                                       # subscripts, just below the midpoint, overflow in the product with the atomic weight)
+    'H0.' + '0' * 400 + '1',                           # 1e-401: converted to 0.0
+    'H.' + '0' * 330 + '5O',                           # 5e-331: converted to 0.0
+    '(HO)0.' + '0' * 340 + '7',                        # after a group
+    'H0.' + '0' * 300 + '1',                           # 1e-301: a normal double
+]
+
 def mutations(seed_bytes, bytes_range=range(1, 256)):
     """every single-character deletion, substitution and insertion"""
     s = seed_bytes
